@@ -51,7 +51,7 @@ class ModelError(Exception):
 def length_sp(d):
     """Exact value of a spelled length in scaled points (a rational)."""
     num, unit = d
-    return Fraction(num) * UNITS[unit] * 65536
+    return Fraction(num) * UNITS[unit.lower()] * 65536       # unit keywords are case-insensitive (tex.web 407)
 
 
 def length_pair_ok(d1, d2):
@@ -455,6 +455,8 @@ class Program(object):
             return "\\setcounter{%s}{%d}" % (s[1], s[2])
         if k == "setbool":
             return "\\setboolean{%s}{%s}" % (s[1], s[2])
+        if k == "provide":
+            return "\\provideboolean{%s}" % s[1]
         if k == "defint":
             if s[3] == "renew":
                 return "\\renewcommand{\\%s}{%s}" % (s[1], s[2])
@@ -592,6 +594,11 @@ class Program(object):
                 raise ModelError("setboolean word %r" % s[2])
             st.bools[s[1]] = (w == "true")
             self.features.add("setboolean")
+        elif k == "provide":
+            # the boolean exists already: \provideboolean leaves it alone (ifthen documentation)
+            if s[1] not in st.bools:
+                raise ModelError("provideboolean of an undeclared boolean")
+            self.features.add("provideboolean-of-existing-%s" % ("true" if st.bools[s[1]] else "false"))
         elif k == "defint":
             st.imacs[s[1]] = s[2]
             self.features.add("redefine-int-macro")
